@@ -11,7 +11,7 @@ PID = "C03"
 LEVEL = "exploration"
 RULE = (
     "cases = call-only DAG programs (2-9 sites) with reused functions (one decorated function at several call sites, "
-    "including pairs of sites with IDENTICAL arguments), deactivated sites (flags of known truthiness), 0-2 setup "
+    "including pairs of sites with IDENTICAL arguments, and one function at 10-13 sites), deactivated sites (flags of known truthiness), 0-2 setup "
     "sites, 0-2 debug sites (RUN_DEBUG_NODES off, or on for whole-DAG calls), three resources, max_concurrency 1..4, "
     "both flavours; a history of 1-3 calls on the SAME DAG instance, each call either whole-DAG or through a fresh "
     "executor(target/exclude/root) and under its own schedule (controlled / free). oracle per call that completes: "
@@ -90,6 +90,19 @@ def cases(draw: Any, tier: str) -> Dict[str, Any]:
                            dep_kinds=("pos", "kw", "flag") if draw(st.booleans()) else ("pos", "kw"), reuse=True,
                            n_setup=draw(st.integers(0, 2)), n_debug=draw(st.integers(0, 2)),
                            dup_rate=0.2, mark_roots=not want_sel))
+    if draw(st.sampled_from([True] + [False] * 7)):
+        # one decorated function at 10-13 call sites: the per-call-site ids reach <<10>> and beyond
+        n = draw(st.integers(10, 13))
+        res_ = draw(st.sampled_from(list(gen.RES)))
+        body = []
+        for i in range(n):
+            dep = draw(st.one_of(st.none(), st.integers(0, i - 1))) if i else None
+            body.append({"k": "call", "fn": "many", "site": gen.site(i), "mark": True,
+                         "args": [] if dep is None else [["v", f"v{dep}"]], "kwargs": {}, "active": None, "unpack": None,
+                         "tags": [], "out": f"v{i}"})
+        P = {"name": "P", "params": [], "fns": {"many": {"kind": "term", "res": res_}}, "body": body,
+             "ret": ["T", [["v", f"v{i}"] for i in range(n)]]}
+        want_sel = False
     for s in P["body"]:
         a = s.get("active")
         if a is not None and a[0] == "v":
